@@ -2,6 +2,7 @@ package main
 
 import (
 	"encoding/json"
+	"errors"
 	"fmt"
 	"math/big"
 	"os"
@@ -141,6 +142,9 @@ func c18Type(a any) reflect.Type {
 				if oe, _ := fm["oe"].(bool); oe {
 					tag += ",omitempty"
 				}
+				if qs, _ := fm["qs"].(bool); qs {
+					tag += ",string"
+				}
 				sf.Tag = reflect.StructTag(`json:"` + tag + `"`)
 			}
 			if emb, _ := fm["emb"].(bool); emb {
@@ -184,13 +188,23 @@ func c18ProjectType(t reflect.Type, top bool) any {
 		fs := []any{}
 		for i := 0; i < t.NumField(); i++ {
 			sf := t.Field(i)
-			f := T{"n": sf.Name, "t": c18ProjectType(sf.Type, false)}
+			f := T{"n": sf.Name}
+			if !sf.IsExported() {
+				f["x"] = true
+			}
+			if !sf.IsExported() && !sf.Anonymous {
+				f["t"] = T{"k": "opaque"} // neither encoding/json nor the generator looks at its type
+			} else {
+				f["t"] = c18ProjectType(sf.Type, false)
+			}
 			if tag, ok := sf.Tag.Lookup("json"); ok {
 				parts := strings.Split(tag, ",")
 				f["j"] = parts[0]
 				for _, p := range parts[1:] {
 					if p == "omitempty" {
 						f["oe"] = true
+					} else if p == "string" {
+						f["qs"] = true
 					} else {
 						f["tagopt"] = p
 					}
@@ -235,8 +249,15 @@ var c18Times = map[string]time.Time{
 
 // c18Value builds the Go value of type t that the abstract value gv denotes.
 func c18Value(t reflect.Type, gv any) reflect.Value {
-	m := gv.(map[string]any)
 	v := reflect.New(t).Elem()
+	c18Fill(v, gv)
+	return v
+}
+
+// c18Fill sets the addressable value v (of a type of any name: kinds decide) to what gv denotes.
+func c18Fill(v reflect.Value, gv any) {
+	m := gv.(map[string]any)
+	t := v.Type()
 	switch m["g"] {
 	case "nil":
 		if t.Kind() != reflect.Ptr {
@@ -244,8 +265,8 @@ func c18Value(t reflect.Type, gv any) reflect.Value {
 		}
 	case "ptr":
 		p := reflect.New(t.Elem())
-		p.Elem().Set(c18Value(t.Elem(), m["e"]))
-		v.Set(p)
+		c18Fill(p.Elem(), m["e"])
+		v.Set(p.Convert(t)) // t may be a defined pointer type
 	case "bool":
 		v.SetBool(m["b"].(bool))
 	case "num":
@@ -306,12 +327,20 @@ func c18Value(t reflect.Type, gv any) reflect.Value {
 			panic(fmt.Sprintf("harness: %d field values for %s", len(fs), t))
 		}
 		for i, f := range fs {
-			v.Field(i).Set(c18Value(t.Field(i).Type, f))
+			sf := t.Field(i)
+			if !sf.IsExported() && !sf.Anonymous {
+				// reflection cannot set it: its only value is the zero value
+				if g := f.(map[string]any)["g"]; g != "zero" {
+					panic(fmt.Sprintf("harness: value %v for unexported field %s.%s", g, t, sf.Name))
+				}
+				continue
+			}
+			// (the exported fields of an embedded struct of an unexported type can be set in place)
+			c18Fill(v.Field(i), f)
 		}
 	default:
 		panic(fmt.Sprintf("harness: bad abstract value %#v", gv))
 	}
-	return v
 }
 
 // c18JSONToTagged projects decoded JSON (UseNumber) to tagged form with number codes.
@@ -464,6 +493,12 @@ func c18Options(opt string) []openapi3gen.Option {
 	case "exporttop":
 		return []openapi3gen.Option{openapi3gen.CreateComponentSchemas(openapi3gen.ExportComponentSchemasOptions{
 			ExportComponentSchemas: true, ExportTopLevelSchema: true})}
+	case "throw":
+		return []openapi3gen.Option{openapi3gen.ThrowErrorOnCycle()}
+	case "custom":
+		// a customizer that changes nothing; its presence alone switches the generator's type table off
+		return []openapi3gen.Option{openapi3gen.SchemaCustomizer(
+			func(name string, t reflect.Type, tag reflect.StructTag, schema *openapi3.Schema) error { return nil })}
 	case "useall_export":
 		return []openapi3gen.Option{openapi3gen.UseAllExportedFields(),
 			openapi3gen.CreateComponentSchemas(openapi3gen.ExportComponentSchemasOptions{ExportComponentSchemas: true})}
@@ -490,6 +525,10 @@ type c18Case struct {
 	Opt  string `json:"opt"`
 	Vals []any  `json:"vals"`
 	Reps any    `json:"reps"` // optional: number of repetitions with fresh generators
+	// optional history: the same Generator has generated First before, and the judged call gets the
+	// same component map (Share) or a new one
+	First any  `json:"first"`
+	Share bool `json:"share"`
 }
 
 const c18RootName = "VerifRootSchema"
@@ -539,6 +578,11 @@ func c18Run(c *Case) []any {
 	line["rt"] = c18ProjectType(t, false)
 	names := map[string]bool{}
 	c18NamesIn(tc.T, names)
+	if tc.First != nil {
+		line["first"], line["share"] = tc.First, tc.Share
+		line["rfirst"] = c18ProjectType(c18Type(tc.First), false)
+		c18NamesIn(tc.First, names)
+	}
 	// close under the declared types' own mentions
 	for changed := true; changed; {
 		changed = false
@@ -610,11 +654,36 @@ func c18GenerateAndVisit(line map[string]any, t reflect.Type, tc *c18Case) any {
 	schemas := openapi3.Schemas{}
 	var ref *openapi3.SchemaRef
 	var err error
+	gen := openapi3gen.NewGenerator(c18Options(tc.Opt)...)
+	if tc.First != nil {
+		// history: the generator has been used before
+		first := c18Type(tc.First)
+		var err1 error
+		if p, msg := guard(func() { _, err1 = gen.NewSchemaRefForValue(reflect.Zero(first).Interface(), schemas) }); p {
+			line["gen1"] = "panic: " + msg
+		} else if err1 != nil {
+			line["gen1"] = "error: " + err1.Error()
+		} else {
+			line["gen1"] = "ok"
+		}
+		if !tc.Share {
+			schemas = openapi3.Schemas{}
+		}
+	}
 	if p, msg := guard(func() {
-		ref, err = openapi3gen.NewSchemaRefForValue(reflect.Zero(t).Interface(), schemas, c18Options(tc.Opt)...)
+		if tc.First != nil {
+			ref, err = gen.NewSchemaRefForValue(reflect.Zero(t).Interface(), schemas)
+		} else { // the package-level entry point (a generator of its own)
+			ref, err = openapi3gen.NewSchemaRefForValue(reflect.Zero(t).Interface(), schemas, c18Options(tc.Opt)...)
+		}
 	}); p {
 		line["gen"] = "panic"
 		line["generr"] = msg
+		return line
+	}
+	var cycleErr *openapi3gen.CycleError
+	if errors.As(err, &cycleErr) {
+		line["gen"] = "cycle_error"
 		return line
 	}
 	if err != nil || ref == nil {
